@@ -1083,3 +1083,21 @@ M('C01', 'eq-validate_signatures-as-any', AUTH,
 M('C01', 'position-counts-unsigned', AUTH,
   "    for ProofSigner {\n        signer: WeightedSigner {\n            signer: public_key,\n            weight,\n        },\n        signature,\n    } in proof.signers.iter()\n    {\n        if let ProofSignature::Signed(signature) = signature {\n            env.crypto()\n                .ed25519_verify(&public_key, msg_hash.to_bytes().as_ref(), &signature);\n\n            total_weight = total_weight.checked_add(weight).unwrap();\n\n            if total_weight >= proof.threshold {\n                return true;\n            }\n        }\n    }\n\n    false\n}",
   "    proof\n        .signers\n        .iter()\n        .position(|ProofSigner { signer: WeightedSigner { signer: public_key, weight }, signature }| {\n            if let ProofSignature::Signed(signature) = signature {\n                env.crypto()\n                    .ed25519_verify(&public_key, msg_hash.to_bytes().as_ref(), &signature);\n            }\n            total_weight = total_weight.checked_add(weight).unwrap();\n            total_weight >= proof.threshold\n        })\n        .is_some()\n}", 'C01')
+M('C07', 'rf-example11-steps-without-auth', EX, "const SEND_STEPS: [SendStep; 3] = [authorize_caller, pay_gas, call_contract];", "const SEND_STEPS: [SendStep; 2] = [pay_gas, call_contract];", 'C07', base='example-11')
+M('C16', 'rf-example11-steps-reordered-equiv', EX, "const SEND_STEPS: [SendStep; 3] = [authorize_caller, pay_gas, call_contract];", "const SEND_STEPS: [SendStep; 3] = [authorize_caller, pay_gas, call_contract,];", equiv=True, base='example-11')
+M('C11', 'rf-tokenadmin10-owner-not-seeded', TOK, "        for initial_minter in [Some(owner), minter].into_iter().flatten() {", "        let _ = &owner;\n        for initial_minter in [minter].into_iter().flatten() {", 'C11.R4', base='tokenadmin-10')
+M('C11', 'rf-tokenadmin10-minter-not-seeded', TOK, "        for initial_minter in [Some(owner), minter].into_iter().flatten() {", "        let _ = &minter;\n        for initial_minter in [Some(owner)].into_iter().flatten() {", 'C11', base='tokenadmin-10')
+
+# ---------------- private helpers exported as entry points (seeded change C17-f showed the pattern) ----------------
+_ITS_CTOR = "#[contractimpl]\nimpl InterchainTokenService {\n    pub fn __constructor("
+M('C05', 'exported-helper-its-give', ITS, _ITS_CTOR, "#[contractimpl]\nimpl InterchainTokenService {\n    pub fn release(env: Env, token_id: BytesN<32>, recipient: Address, amount: i128) -> Result<(), ContractError> {\n        let config = Self::token_id_config_with_extended_ttl(&env, token_id)?;\n        token_handler::give_token(&env, &recipient, config, amount)\n    }\n\n    pub fn __constructor(", 'C05')
+M('C11', 'exported-helper-its-set-config', ITS, _ITS_CTOR, "#[contractimpl]\nimpl InterchainTokenService {\n    pub fn bind(env: Env, token_id: BytesN<32>, token_address: Address) {\n        Self::set_token_id_config(&env, token_id, TokenIdConfigValue { token_address, token_manager_type: TokenManagerType::LockUnlock });\n    }\n\n    pub fn __constructor(", 'C11')
+M('C04', 'exported-helper-its-execute_message', ITS, _ITS_CTOR, "#[contractimpl]\nimpl InterchainTokenService {\n    pub fn deliver(env: Env, source_chain: String, message_id: String, source_address: String, payload: Bytes) -> Result<(), ContractError> {\n        Self::execute_message(&env, source_chain, message_id, source_address, payload)\n    }\n\n    pub fn __constructor(", 'C04')
+_GW_CTOR = "#[contractimpl]\nimpl AxelarGateway {\n    /// Initialize the gateway\n    pub fn __constructor("
+M('C03', 'exported-helper-gateway-install', GW, _GW_CTOR, "#[contractimpl]\nimpl AxelarGateway {\n    pub fn install(env: Env, signers: WeightedSigners) -> Result<(), ContractError> {\n        auth::rotate_signers(&env, &signers, false)\n    }\n\n    /// Initialize the gateway\n    pub fn __constructor(", None)
+_TOK_CTOR = "#[contractimpl]\nimpl InterchainToken {\n    pub fn __constructor("
+M('C12', 'exported-helper-token-credit', TOK, _TOK_CTOR, "#[contractimpl]\nimpl InterchainToken {\n    pub fn credit(env: Env, to: Address, amount: i128) {\n        Self::receive_balance(&env, to, amount);\n    }\n\n    pub fn __constructor(", 'C12')
+M('C12', 'exported-helper-token-write-allowance', TOK, _TOK_CTOR, "#[contractimpl]\nimpl InterchainToken {\n    pub fn grant(env: Env, from: Address, spender: Address, amount: i128, expiration_ledger: u32) {\n        Self::write_allowance(&env, from, spender, amount, expiration_ledger);\n    }\n\n    pub fn __constructor(", 'C12')
+M('C17', 'ft-execute_batch-no-membership', OPS, "        operator.require_auth();\n\n        Self::ensure_is_operator(&env, &operator)?;\n\n        let mut results", "        operator.require_auth();\n\n        let mut results", 'C17.R1', base='features/gasops-f2')
+MUTANTS[-1]['also'] = [("            Self::ensure_is_operator(&env, &operator)?;\n\n            let res: Val", "            let res: Val")]
+M('C17', 'ft-execute_batch-no-auth', OPS, "        operator.require_auth();\n\n        Self::ensure_is_operator(&env, &operator)?;\n\n        let mut results", "        Self::ensure_is_operator(&env, &operator)?;\n\n        let mut results", 'C17.R1', base='features/gasops-f2')
